@@ -816,12 +816,18 @@ func (c *Client) peekPacket() (head byte, err error) {
 		}
 
 		lastN := len(c.peek)
-		c.peek, err = c.bufr.Peek(size)
-		switch {
-		case err == nil: // OK
-			return head, err
-		case head>>4 == typePUBLISH && errors.Is(err, bufio.ErrBufferFull):
-			return head, &BigMessage{Client: c, Size: size}
+		if head>>4 == typePUBLISH && size > readBufSize {
+			// await a full buffer, such that deadline expiry
+			// gets the same treatment as with regular packets
+			c.peek, err = c.bufr.Peek(readBufSize)
+			if err == nil {
+				return head, &BigMessage{Client: c, Size: size}
+			}
+		} else {
+			c.peek, err = c.bufr.Peek(size)
+			if err == nil {
+				return head, err
+			}
 		}
 
 		// Allow deadline expiry if at least one byte was transferred.
